@@ -495,6 +495,22 @@ func eventPayloadOK(fn *ssa.Function, payload ssa.Value, arg ssa.Value, stored M
 	if ok {
 		payload = mi.X
 	}
+	payload = valueRoot(payload)
+	// built under the "raised" flag and handed on as a pointer that is nil otherwise
+	if phi, isPhi := payload.(*ssa.Phi); isPhi {
+		var only ssa.Value
+		n := 0
+		for _, e := range phi.Edges {
+			if k, isC := e.(*ssa.Const); isC && k.Value == nil {
+				continue
+			}
+			only = e
+			n++
+		}
+		if n == 1 {
+			payload = only
+		}
+	}
 	al, ok := payload.(*ssa.Alloc)
 	if !ok {
 		return false, "payload is not a composite literal"
